@@ -694,7 +694,7 @@ class GeoBox(GeoBoxBase):
         :param region: Region to be covered by the new GeoBox.
         """
         if isinstance(region, BoundingBox):
-            region = region.polygon
+            region = _bbox_outline(region, self._crs)
 
         if region.crs is None:
             raise ValueError("Must supply geo-resgistered region")
@@ -1297,6 +1297,22 @@ def affine_transform_pix(gbox: GeoBox, transform: Affine) -> GeoBox:
     return gbox * transform
 
 
+def _bbox_outline(bbox: BoundingBox, crs: MaybeCRS) -> Geometry:
+    """
+    Outline of a bounding box, ready to be projected into ``crs``.
+
+    Sides of a box are not straight lines in other projections, so extra
+    points are added along them when CRSs differ.
+    """
+    poly = bbox.polygon
+    if bbox.crs is None or crs is None or bbox.crs == crs:
+        return poly
+    step = max(bbox.span_x, bbox.span_y) / 100
+    if step > 0 and math.isfinite(step):
+        poly = poly.segmented(step)
+    return poly
+
+
 class GeoboxTiles:
     """Partition GeoBox into sub geoboxes."""
 
@@ -1402,13 +1418,7 @@ class GeoboxTiles:
         Sides of a box are not straight lines in other projections, so extra
         points are added along them when CRSs differ.
         """
-        poly = bbox.polygon
-        if bbox.crs is None or bbox.crs == self._gbox.crs:
-            return poly
-        step = max(bbox.span_x, bbox.span_y) / 100
-        if step > 0 and math.isfinite(step):
-            poly = poly.segmented(step)
-        return poly
+        return _bbox_outline(bbox, self._gbox.crs)
 
     def range_from_bbox(self, bbox: BoundingBox) -> Tuple[range, range]:
         """
